@@ -24,6 +24,8 @@ pub struct Out {
     pub quiet: bool,
     /// universal histories are also judged by the (generic) monitor of the property
     pub monitored: bool,
+    /// the case as generated (before the read events were rewritten to what was delivered)
+    pub orig: String,
     /// client histories are judged by the history-independence monitor
     pub metamorphic: bool,
 }
@@ -43,6 +45,7 @@ impl Out {
             samples: vec![],
             quiet: false,
             monitored: false,
+            orig: String::new(),
         }
     }
 
